@@ -10,6 +10,7 @@
 package main
 
 import (
+	"sync/atomic"
 	"bytes"
 	"encoding/json"
 	"fmt"
@@ -1178,6 +1179,83 @@ func main() {
 		a.flush()
 	})
 	run.Set("cases_c", nC)
+	// (c') the FULL structured candidate family (the one C01/C05 offer to Verify) as the share of one
+	// signer, for the first context with n = 3, t = 1 and one with t = 2: a string that is not a
+	// canonical encoding of a curve point is refused by every path; a canonical one that is not the
+	// signer's share never yields the group signature (unless the Lagrange coefficient kills the
+	// difference, computed by the reference) and is refused by VerifyShare / VerifyAndAdd.
+	{
+		var fam []acase
+		seenNT := map[[2]int]bool{}
+		for _, cs := range cases {
+			k := [2]int{cs.c.k.n, cs.c.k.t}
+			if (k == [2]int{3, 1} || k == [2]int{4, 2}) && !seenNT[k] && len(cs.order) == cs.c.k.t+1 {
+				seenNT[k] = true
+				fam = append(fam, cs)
+			}
+		}
+		var nF int64
+		for _, cs := range fam {
+			c, order := cs.c, cs.order
+			n, t := c.k.n, c.k.t
+			idx := make([]int, t+1)
+			for p := range idx {
+				idx[p] = order[p] + 1
+			}
+			lam := refbls.LagrangeAtZero(idx)
+			for pos := 0; pos <= t; pos += t { // first and last used position
+				signer := order[pos]
+				cands := refbls.G1Candidates(c.sharePt[signer], c.H)
+				ev.Par(len(cands), func(i int) {
+					cd := cands[i]
+					if len(cd.Bytes) != 48 {
+						return // other lengths are refused before parsing (C09 / part d)
+					}
+					list := make([][]byte, len(order))
+					for p, s := range order {
+						list[p] = c.shares[s]
+					}
+					list[pos] = cd.Bytes
+					v := refbls.JudgeG1(cd.Bytes)
+					same := bytes.Equal(cd.Bytes, c.shares[signer])
+					desc := fmt.Sprintf("n=%d t=%d order %v pos %d candidate %s", n, t, order, pos, cd.Name)
+					note := "candidate " + cd.Name
+					got, err := stateless(n, t, list, order)
+					atomic.AddInt64(&nF, 1)
+					switch {
+					case !v.Decodes:
+						if err == nil || !crypto.IsInvalidSignatureError(err) {
+							run.Violation("c:family:stateless:non-canonical-share-accepted:"+famClass(cd.Name), desc+fmt.Sprintf(": (%x, %v), want the invalid-signature error", got, err), c.rep("c'", "stateless", order, list, got, note))
+						}
+					case same:
+						if err != nil || !bytes.Equal(got, c.expected) {
+							run.Violation("c:family:stateless:valid-share-rejected", desc, c.rep("c'", "stateless", order, list, got, note))
+						}
+					default:
+						cancels := v.Point.Add(c.sharePt[signer].Neg()).Mul(lam[pos]).Inf
+						if err == nil && bytes.Equal(got, c.expected) != cancels {
+							run.Violation("c:family:stateless:wrong-share-gives-group-signature:"+famClass(cd.Name), desc, c.rep("c'", "stateless", order, list, got, note))
+						}
+					}
+					ins := c.inspector()
+					ok, verr := ins.VerifyShare(signer, cd.Bytes)
+					if verr != nil || ok != same {
+						run.Violation("c:family:VerifyShare:"+famClass(cd.Name), desc+fmt.Sprintf(": VerifyShare = (%v,%v), want (%v,nil)", ok, verr, same), c.rep("c'", "VerifyShare", order, list, nil, note))
+					}
+					for p, s := range order {
+						_, _ = ins.TrustedAdd(s, list[p])
+					}
+					ts, terr := ins.ThresholdSignature()
+					if terr == nil && !bytes.Equal(ts, c.expected) {
+						run.Violation("c:family:stateful:returned-invalid-signature:"+famClass(cd.Name), desc+": ThresholdSignature returned a signature that is not a0*H(m)", c.rep("c'", "TrustedAdd", order, list, ts, note))
+					}
+					run.Distinct(fmt.Sprintf("cf/%d/%d/%d/%s", n, t, pos, cd.Name))
+				})
+			}
+		}
+		run.Set("cases_c_family", nF)
+		run.Add("evaluations", 3*nF)
+	}
 	if len(cases) > 0 {
 		cs := cases[len(cases)/2]
 		l := make([][]byte, len(cs.order))
@@ -1298,3 +1376,12 @@ func main() {
 var t0 = time.Now()
 
 func elapsed() float64 { return time.Since(t0).Seconds() }
+
+
+// famClass strips indices from a candidate name ("bitflip/17" -> "bitflip").
+func famClass(name string) string {
+	if i := strings.IndexByte(name, '/'); i >= 0 {
+		return name[:i]
+	}
+	return name
+}
